@@ -147,7 +147,9 @@ Inductive gobj :=
 | GMain (b : box) (has_label : bool) (lp : option bytes) (lw lh : Q)
       (* NearKey == nil and no near container above: Box, Label.Value != "", LabelPosition, LabelDimensions *)
 | GNear (k : nearkey) (b : box)          (* an already placed constant near *)
-| GOther.                                (* NearKey != nil but not one of the 8 constants, or inside a near container: contributes nothing *)
+| GObjNear (b : box) (has_label : bool) (lp : option bytes) (lw lh : Q).
+      (* a shape of the main diagram whose near is ANOTHER SHAPE (NearKey != nil but not a constant), or a
+         descendant of such a shape (OuterNearContainer() != nil): boundingBox skips it *)
 
 Definition bbstate := (range * range)%type.
 
@@ -176,7 +178,7 @@ Definition add_obj (s : bbstate) (g : gobj) : bbstate :=
       | CenterLeft | CenterRight => (fst s, ext (snd s) (by_ b) (by_ b + bh b))
       | _ => s
       end
-  | GOther => s
+  | GObjNear _ _ _ _ _ => s
   end.
 
 Definition add_pt (s : bbstate) (p : Q * Q) : bbstate :=
@@ -296,6 +298,21 @@ Definition clear_of_b (margin tol : Q) (kc : nearkey) (c : box) (kd : nearkey) (
   implb' (is_vcenter kd && is_corner kc)
     (implb' (is_top kc) (Qle_bool (by_ c + bh c + margin) (by_ d + tol)) &&
      implb' (is_bottom kc) (Qle_bool (by_ d + bh d + margin) (by_ c + tol))).
+
+(* The bounding box of the whole main diagram: the shapes boundingBox skips because their near is another
+   shape are shapes of the main diagram too ([xpts]: route points of the edges touching them). *)
+Definition plain (g : gobj) : gobj :=
+  match g with GObjNear b hl lp lw lh => GMain b hl lp lw lh | _ => g end.
+Definition full_box (main : list gobj) (pts xpts : list (Q * Q)) : bbox :=
+  bounding_box (map plain main) (pts ++ xpts).
+Definition no_obj_near_b (main : list gobj) : bool :=
+  forallb (fun g => match g with GObjNear _ _ _ _ _ => false | _ => true end) main.
+
+(* two boxes share interior points *)
+Definition Qlt_b (a b : Q) : bool := negb (Qle_bool b a).
+Definition boxes_overlap_b (a b : box) : bool :=
+  Qlt_b (bx a) (bx b + bw b) && Qlt_b (bx b) (bx a + bw a) &&
+  Qlt_b (by_ a) (by_ b + bh b) && Qlt_b (by_ b) (by_ a + bh a).
 
 (* hypotheses of the theorems, as booleans the checker evaluates *)
 Definition label_dims_ok_b (n : nearobj) : bool := Qle_bool 0 (n_lw n) && Qle_bool 0 (n_lh n).
